@@ -50,6 +50,15 @@ pub struct Script {
 
 pub struct Transport(Arc<Mutex<Script>>);
 
+impl Transport {
+    /// A client that has already sent `bytes` and stays connected (reads then pend forever).
+    pub fn preloaded(bytes: Vec<u8>) -> Transport {
+        let mut sc = Script::default();
+        sc.avail.extend(bytes);
+        Transport(Arc::new(Mutex::new(sc)))
+    }
+}
+
 impl AsyncRead for Transport {
     fn poll_read(self: Pin<&mut Self>, _cx: &mut Context<'_>, buf: &mut ReadBuf<'_>) -> Poll<std::io::Result<()>> {
         let mut s = self.0.lock().unwrap();
